@@ -357,6 +357,8 @@ class Base:
             text = json_config(self.assets, self.exchanges, self.holders) if fault["class"] == "config-deprecated-json" else mutate_ini(self.ini_text, fault)
             with open(ini, "w", encoding="utf-8") as handle:
                 handle.write(text)
+            if fault["class"] == "config-unknown-method-in-schedule":
+                args = []  # with -m the run would be refused for the -m / [accounting_methods] conflict instead
         else:
             country = fault["country"]
             args = list(fault["args"])
